@@ -172,8 +172,8 @@ def _run_task(arg):
             d = {k: getattr(o, k) for k in ('name', 'mode', 'exact', 'timeout', 'expect', 'meta', 'smt', 'hash', 'result',
                                            'model', 'time', 'solver', 'trivial')}
             d['msg'] = getattr(o, 'msg', '')
-            if o.result == o.expect:
-                d['smt'] = None  # decided: keep only the hash
+            if o.result == o.expect and not (sub.tier == 'thorough' and (len(out) % 25 == 0)):
+                d['smt'] = None  # decided: keep only the hash (a sample keeps its text for the cross-solver diff)
             out.append(d)
         return {'name': name, 'obls': out, 'paths': sub.paths, 'path_queries': sub.path_queries,
                 'path_solver_time': sub.path_solver_time, 'funcs': sorted(sub.funcs), 'instrs': sub.instrs,
@@ -334,7 +334,38 @@ class Check:
         self.log('discharging %d obligations with the external portfolio (%d already decided in-process)' % (len(todo), len(self.obls) - len(todo)))
         smt.discharge(todo, jobs=max(1, self.jobs // len(portfolio)), portfolio=portfolio, workdir=workdir(), log=lg)
 
+    def cross_check(self, limit=60, timeout=30):
+        """thorough tier: re-decide a sample of discharged obligations with cvc5 and z3 4.8.12; a definite answer that
+        differs from the primary solver's is an engine error (the encoding or a solver is wrong), never a verdict"""
+        import concurrent.futures as cf
+        cand = [o for o in self.obls if o.smt and o.result == o.expect and not o.trivial]
+        cand = sorted(cand, key=lambda o: o.hash)[:limit]
+        stats = {'cvc5': {'agree': 0, 'inconclusive': 0}, 'z3old': {'agree': 0, 'inconclusive': 0}}
+        bad = []
+
+        def one(o, sv):
+            r, _, dt, msg = smt.run_solver(o.smt.replace('(get-model)\n', ''), sv, timeout, workdir())
+            return o, sv, r
+        with cf.ThreadPoolExecutor(max_workers=self.jobs) as ex:
+            futs = [ex.submit(one, o, sv) for o in cand for sv in ('cvc5', 'z3old')]
+            for f in futs:
+                o, sv, r = f.result()
+                if r in ('sat', 'unsat'):
+                    if r == o.result:
+                        stats[sv]['agree'] += 1
+                    else:
+                        bad.append((o.name, sv, r, o.result))
+                else:
+                    stats[sv]['inconclusive'] += 1
+        self.extra['cross_solver'] = {'sampled': len(cand), 'stats': stats, 'disagreements': bad[:5]}
+        self.log('cross-solver diff on %d obligations: %s' % (len(cand), stats))
+        if bad:
+            self.engine_errors = getattr(self, 'engine_errors', 0) + 1
+            self.log('ENGINE-ERROR: solvers disagree: %s' % bad[:3])
+
     def finish(self, replayer=None):
+        if self.thorough and os.environ.get('VERIF_NO_CROSS') != '1':
+            self.cross_check()
         known = [k for k in load_known() if k.get('property') == self.pid]
         failed = [o for o in self.obls if o.result != o.expect]
         viol_lines = []
